@@ -58,7 +58,7 @@ let label_s = function
   | LInterim (i, w) -> "interim" ^ nat_s i ^ (if w then "w" else "i")
   | LQueue i -> "queue" ^ nat_s i | LEmpty i -> "empty" ^ nat_s i | LAddTask -> "addtask"
   | LServe i -> "serve" ^ nat_s i | LFinal i -> "final" ^ nat_s i | LPop i -> "pop" ^ nat_s i
-  | LCloseDecision -> "closedecision" | LReset i -> "reset" ^ nat_s i
+  | LCloseDecision -> "closedecision"
 
 let lst f l = "[" ^ String.concat "," (List.map f l) ^ "]"
 
@@ -69,7 +69,7 @@ let state_s (s : state) (l : label list) =
     "sc=" ^ b2s s.sent_continue; "wc=" ^ b2s s.will_close; "cwf=" ^ b2s s.close_when_flushed;
     "con=" ^ b2s s.connected; "rl=" ^ b2s s.rlock; "io=" ^ io_s s.io;
     "act=" ^ lst w_s s.active; "q=" ^ nat_s s.queued; "out=" ^ lst tok_s s.outlog;
-    "next=" ^ nat_s s.next_id; "bad=" ^ lst nat_s s.bad; "lab=" ^ lst label_s l ]
+    "next=" ^ nat_s s.next_id; "lab=" ^ lst label_s l ]
 
 let do_run (ws : string list) =
   let rec go s ws acc = match ws with
